@@ -380,7 +380,7 @@ func fill(n, limit int) string {
 }
 
 func run() {
-	hx.RunLines(60*time.Second, func(t []string) string {
+	hx.RunLines(600*time.Second, func(t []string) string {
 		switch t[0] {
 		case "req":
 			return runReq(t)
